@@ -36,6 +36,9 @@ void transpose_dm(const dmat *A, dmat *At);
 
 /* elimination tree from its definition: parent[k] = min{ i > k : L(i,k) != 0 } in the symbolic Cholesky factor of (F Pc)'(F Pc) (sym=0) or of Pc'(F+F')Pc (sym=1); F = factored orientation */
 void ref_etree(const dmat *F, const int *perm_c, int n, int sym, int *parent);
+/* bookkeeping of the factor storage after a successful factorization: the capacities recorded in Glu (nzlumax, nzumax, nzlmax) are backed by the blocks the
+   arrays live in (library allocation: ledger sizes; caller workspace: inside [work, work+lwork), in order, not overlapping) and the workspace stack counters agree */
+int  o_glu_storage(const xs *s, vres *r);
 /* oracles on a finished call */
 int  o_scaling(const xs *s, const dmat *A_in, const dmat *B_in, int trans, int equil, vres *r);
 int  o_solution(const xs *s, int trans, const dmat *Bafter, vres *r, double *ratio, int *nr_conj_quirk);
